@@ -1030,13 +1030,6 @@ static bool inBounds(const Node &n, const State *s, bool headingOnly, Oob *o = n
             return true;
     }
 }
-static bool finiteState(const Node &n, const State *s)
-{
-    for (double v : reals(n, s))
-        if (!std::isfinite(v)) return false;
-    return true;
-}
-
 // ---- tolerances (DESIGN 2.4) --------------------------------------------------------------------------
 static double sane(double d) { return std::isfinite(d) ? std::fabs(d) : 0.0; }
 // absolute slack of one distance evaluation in n beyond rounding: declared resolutions of the leaf spaces
@@ -1303,6 +1296,8 @@ namespace c06
         double ext = extentOf(n);
         long done = 0;
         double worstTri = 0;
+        // margin statistic only over spaces without a Mobius / Klein component (their sub-tolerance violations would dominate it)
+        bool glued = n.sig.find("Mobius") != std::string::npos || n.sig.find("Klein") != std::string::npos;
         for (long it = 0; it < iters; ++it)
         {
             int rel, trel = (int)rng.ui(T_COUNT);
@@ -1351,7 +1346,7 @@ namespace c06
                     report(sink, n, cl, e, a, b, cc);
                     bad = true;  // abandon this triple: later clauses would report consequences
                 }
-                else if (cl == TRIANGLE && e.tol > 0)
+                else if (cl == TRIANGLE && e.tol > 0 && !glued)
                     worstTri = std::max(worstTri, e.excess / e.tol);
             }
             if (bad) continue;
@@ -1391,7 +1386,7 @@ namespace c06
         cnt.add("c06_triples", done);
         cnt.add("c06_distance_evaluations", done * 30);
         cnt.flush(sink);
-        sink.maxstat("c06_triangle_worst_excess_over_tol_when_held", worstTri);
+        if (!glued) sink.maxstat("c06_triangle_worst_excess_over_tol_when_held", worstTri);
         sink.noteCase(caseHash(args, c, n), done >= 50);
         sink.sample(J().str("space", n.sig.substr(0, 300)).str("kind", ZNAME[z]).i("triples", done).num("extent", n.sp->getMaximumExtent())
                         .b("isMetricSpace", n.sp->isMetricSpace()).b("hasSymmetricDistance", n.sp->hasSymmetricDistance()));
@@ -1795,15 +1790,6 @@ namespace c08
         sink.viol(std::string("C08:") + clause + ":" + subject, j);
     }
 
-    static void collectNodes(const Node &n, std::vector<const Node *> &out)
-    {
-        for (auto &k : n.kids)
-        {
-            out.push_back(k.get());
-            collectNodes(*k, out);
-        }
-    }
-
     // ---- space cases: enforceBounds + default / compound / wrapper / subspace samplers -----------------------
     static void spaceCase(Sink &sink, const Args &args, long c, Rng &rng, int z)
     {
@@ -1827,8 +1813,6 @@ namespace c08
         std::vector<SubS> subs;
         if (n.kind != K_WRAPPER && n.composite())
         {
-            std::vector<const Node *> all;
-            collectNodes(n, all);
             // wrapped components cannot be addressed by name from outside their wrapper
             std::vector<const Node *> ok;
             std::function<void(const Node &)> walk = [&](const Node &k) {
@@ -2124,6 +2108,7 @@ namespace c08
         for (int k = 0; k < 20; ++k)
         {
             genState(n, st[1], rng);
+            discv(sub(n, st[1], 1)) = 5;  // fixed so that the first overflowing expression (and the sanitizer key) is always the same
             for (double f : {1.0, 10.0, 100.0})
             {
                 Oob oob;
